@@ -1,0 +1,89 @@
+//go:build verif
+
+// Read-only accessors for the C06 verification harness (/verif): a consistent snapshot of one
+// typed xDS cache (token, LRU store in recency order, reverse index, evict queue) and a
+// synchronous variant of the periodic index flush of XdsCacheImpl.Run. Built only with -tags verif.
+package model
+
+import (
+	discovery "github.com/envoyproxy/go-control-plane/envoy/service/discovery/v3"
+)
+
+// VerifC06Entry is one entry of the LRU store.
+type VerifC06Entry struct {
+	Key   any
+	Token uint64
+	Deps  []ConfigHash
+	Value *discovery.Resource
+}
+
+// VerifC06Evict is one element of the deferred index-cleanup queue.
+type VerifC06Evict struct {
+	Key  any
+	Deps []ConfigHash
+}
+
+// VerifC06State is a snapshot of one typed cache. Store is ordered from oldest to newest.
+type VerifC06State struct {
+	Disabled   bool
+	Token      uint64
+	Store      []VerifC06Entry
+	Index      map[ConfigHash][]any
+	EvictQueue []VerifC06Evict
+}
+
+func verifC06Snap[K comparable](c typedXdsCache[K]) VerifC06State {
+	l, ok := c.(*lruCache[K])
+	if !ok {
+		return VerifC06State{Disabled: true}
+	}
+	l.mu.Lock()
+	defer l.mu.Unlock()
+	st := VerifC06State{Token: uint64(l.token), Index: map[ConfigHash][]any{}}
+	for _, k := range l.store.Keys() {
+		v, _ := l.store.Peek(k) // Peek does not touch recency
+		st.Store = append(st.Store, VerifC06Entry{Key: k, Token: uint64(v.token), Deps: append([]ConfigHash(nil), v.dependentConfigs...), Value: v.value})
+	}
+	for h, ks := range l.configIndex {
+		out := make([]any, 0, len(ks))
+		for k := range ks {
+			out = append(out, k)
+		}
+		st.Index[h] = out
+	}
+	for _, e := range l.evictQueue {
+		st.EvictQueue = append(st.EvictQueue, VerifC06Evict{Key: e.key, Deps: append([]ConfigHash(nil), e.dependentConfigs...)})
+	}
+	return st
+}
+
+// VerifC06Snapshot returns the state of the typed cache `typ` (CDSType, EDSType, RDSType, SDSType).
+func VerifC06Snapshot(c XdsCache, typ string) VerifC06State {
+	x, ok := c.(XdsCacheImpl)
+	if !ok {
+		return VerifC06State{Disabled: true}
+	}
+	switch typ {
+	case CDSType:
+		return verifC06Snap(x.cds)
+	case EDSType:
+		return verifC06Snap(x.eds)
+	case RDSType:
+		return verifC06Snap(x.rds)
+	case SDSType:
+		return verifC06Snap(x.sds)
+	}
+	return VerifC06State{Disabled: true}
+}
+
+// VerifC06Flush runs the body of the ticker loop of XdsCacheImpl.Run once, synchronously.
+func VerifC06Flush(c XdsCache) {
+	x, ok := c.(XdsCacheImpl)
+	if !ok {
+		return
+	}
+	x.cds.Flush()
+	x.eds.Flush()
+	x.rds.Flush()
+	x.sds.Flush()
+}
